@@ -204,7 +204,8 @@ fn child_run(job_json: &[u8]) -> String {
                 "panic".to_string()
             };
             let mut r = RunResult::new(&job);
-            r.verdict = Verdict::Harness(format!("harness panic: {msg}"));
+            let loc = crate::exec::LAST_PANIC_LOCATION.lock().map(|l| l.clone()).unwrap_or_default();
+            r.verdict = Verdict::Harness(format!("harness panic at {loc}: {msg}"));
             r
         }
     };
